@@ -158,6 +158,9 @@ func runC05(c *Ctx) error {
 		"(all-source engine vs all-IR engine over the same files in the same order: package clauses other than gorules, per-file custom Filter()/Do() function names and bodies, "+
 		"files drawing patterns from a small common pool so that rules of different files accept the same node, colliding group names, equal file names, bundle imports, "+
 		"2..3 fixture files together): equal outcome of every load call, equal LoadedGroups(), equal report streams in the same order. "+
+		"Loader half: every ir.File the real irconv produced for those rules files plus values of C06's IR generator (1/3 malformed), sent whole (all fields, nil/empty bits) to the Lean "+
+		"model loadFile(toLoaderFile f) and to the model of the precompiled path (print, read back, load): outcome class (accepted alternatives with buckets / error line / panic kind) "+
+		"== real LoadFromIR of the value / of the evaluated printed text; LoadFromIR of the value with every empty slice nil and with every nil slice empty-but-non-nil must behave the same. "+
 		"A case is non-trivial when the file has at least one rule group or bundle import; distinct by S-expression.", nValid, nBundle, nZero, nMal, nMut)
 
 	var cases []*c05Case
@@ -190,6 +193,12 @@ func runC05(c *Ctx) error {
 		return err
 	}
 	res.Notes = append(res.Notes, fmt.Sprintf("e2e suite %.1fs", time.Since(t0).Seconds()))
+	t0 = time.Now()
+	// the loader half: Lean model of LoadFile on the whole ir.File, the precompiled path, nil vs empty (c05_load.go)
+	if err := c05LoadSuites(c, e2eFiles); err != nil {
+		return err
+	}
+	res.Notes = append(res.Notes, fmt.Sprintf("load suites %.1fs", time.Since(t0).Seconds()))
 	t0 = time.Now()
 	defer func() { res.Notes = append(res.Notes, fmt.Sprintf("IR suites %.1fs", time.Since(t0).Seconds())) }()
 	for _, ef := range e2eFiles {
